@@ -39,6 +39,19 @@ Theorem C17_finalize_invoice_expired_no_effect : forall w s ttl c,
 Proof. exact finalize_invoice_expired. Qed.
 Print Assumptions C17_finalize_invoice_expired_no_effect.
 
+(** ... and when it succeeds on a reply that carries a cutoff, the issuer's entry carries one
+    from then on (its own if it had one, the reply's otherwise): the expiry step then treats
+    it like the payer's entry (C17_refresh_cancels_every_due_entry). *)
+Theorem C17_finalize_invoice_adopts_the_cutoff : forall w s ttl c w',
+  finalize_invoice w s ttl c = (w', Ok tt) -> ttl <> 0 ->
+  exists t t',
+    find (fun t => optN_eqb (t_slate t) (Some s) && ttype_eqb (t_type t) TReceived) (w_log w) = Some t
+    /\ get_tx (w_log w') (t_parent t) (t_id t) = Some t'
+    /\ t_type t' = TReceived /\ t_conf t' = t_conf t
+    /\ t_ttl t' = Some (match t_ttl t with Some e => e | None => ttl end).
+Proof. exact finalize_invoice_adopts_cutoff. Qed.
+Print Assumptions C17_finalize_invoice_adopts_the_cutoff.
+
 (** a slate without a cutoff, or whose cutoff lies ahead, is never refused for that reason *)
 Theorem C17_not_expired_not_refused : forall w s a ttl d c,
   (ttl = 0 \/ lookup (w_confh w) (w_active w) < ttl) ->
